@@ -269,6 +269,14 @@ def _arbitrary_user_data(args):
                     others = [m for m in cands if m != o]
                     if others and rnd.random() < 0.3:
                         stale[rnd.choice(others)].append(TopicPartition(t, p))
+        # ... and partitions that no longer exist: the topic was re-created with fewer partitions or lost its metadata,
+        # the members still report what they owned (every other case)
+        if i % 4 >= 2:
+            for t in topics:
+                for p in range(parts[t], parts[t] + rnd.randint(0, 2)):
+                    cands = [m for m in members if t in subs[m] or not only_subscribed]
+                    if cands:
+                        claims[rnd.choice(cands)].append(TopicPartition(t, p))
         mm, reported = {}, {}
         for m in members:
             if stale[m] and rnd.random() < 0.7:
